@@ -116,16 +116,25 @@ func nolintContainsNilAway(text string) bool {
 	if !strings.HasPrefix(text, "nolint") {
 		return false
 	}
+	// The directive is the word "nolint" on its own: it is followed by the linter list, a space,
+	// or the end of the comment (e.g., "//nolintlint" is not a nolint directive).
+	if rest := text[len("nolint"):]; rest != "" && !strings.ContainsRune(": \t", rune(rest[0])) {
+		return false
+	}
 
 	// strip explanation comments
 	split := strings.Split(text, "//")
 	text = strings.TrimSpace(split[0])
 
+	// The linter list, if any, follows the directive immediately (modulo spaces). Without it the
+	// directive applies to all linters; a colon further down is part of the free text after a
+	// bare nolint (e.g., "//nolint TODO: remove").
 	parts := strings.Split(text, ":")
-	if len(parts) == 1 {
+	if len(parts) == 1 || strings.TrimSpace(parts[0]) != "nolint" {
 		return true
 	}
-	for linter := range strings.SplitSeq(strings.TrimSpace(parts[1]), ",") {
+	for linter := range strings.SplitSeq(parts[1], ",") {
+		linter = strings.TrimSpace(linter)
 		if strings.EqualFold(linter, "all") || strings.EqualFold(linter, "nilaway") {
 			return true
 		}
